@@ -78,6 +78,7 @@ func runC06(c *core.Ctx) *core.Outcome {
 	cfg.OutputSize = 0
 	cfg.FlagCount = uint32([]int{1, 3, 8, 9, 0, 40, 250, 300, 1000, 2100}[t.Int(10)])
 	cfg.First = t.Chance(1, 3)
+	cfg.ResetOnEmpty = t.Chance(1, 5) // only exercised while the session is blocked: the model does not know the option
 	a := app.Generate(t, c06Profile(cfg.FlagCount, t.Chance(3, 4)))
 	if err := a.Validate(); err != nil {
 		panic("generator produced ill-formed app: " + err.Error())
@@ -112,9 +113,18 @@ func runC06(c *core.Ctx) *core.Outcome {
 			in = genInput(t, a, cur, 1)
 		}
 		fresh := persisted && t.Chance(3, 4)
+		emptyIn := t.Chance(1, 3)
 		t.End()
 		flagsBefore := r.m.UserFlags()
 		wasBlocked := r.m.Blocked
+		if cfg.ResetOnEmpty && i > 0 {
+			if wasBlocked && emptyIn {
+				in = []byte{} // TERMINATE is cleared by client code, not by what the client sends
+				o.Probes["empty_input_on_blocked_session_with_reset_on_empty"]++
+			} else if len(in) == 0 {
+				in = []byte("0")
+			}
+		}
 		ob := r.request(in, fresh)
 		sb := B.Request(in, fresh)
 		o.Counts["requests"] += 2
